@@ -15,7 +15,7 @@ META = dict(
                  "which stop reason is valid is C03's subject; here the delivered fields must describe the final attempt"],
     outside=["attempt_timeout_s (a func-raised TimeoutError is replaced by _call_with_timeout on Python >= 3.11)"],
 )
-GOALS = ["none_result_is_failure", "return_first_success", "raise_last_exception", "exhausted_on_result", "scheduled_exc", "scheduled_res",
+GOALS = ["same_exception_instance_twice", "none_result_is_failure", "return_first_success", "raise_last_exception", "exhausted_on_result", "scheduled_exc", "scheduled_res",
          "mixed_exc_then_res", "mixed_res_then_exc", "aborted"]
 ENTRIES = ["retry.call", "aretry.call", "policy.call", "apolicy.call", "rp.call", "arp.call"]
 
@@ -87,6 +87,8 @@ def check_call(w, trace, result, sym):
     # exception-caused stop: the very exception object of the last attempt, original traceback
     if obj is not fin["obj"]:
         return ("wrong_exception", f"raised {obj!r}, last attempt raised {fin['obj']!r}")
+    if len(info["segs"]) >= 2 and w.objs[info["segs"][-2][0][1]][1] is obj:
+        sym.cover("same_exception_instance_twice")
     if innermost_frame_name(obj) != "_op_body":
         return ("traceback", f"innermost traceback frame is {innermost_frame_name(obj)}, not the operation")
     sym.cover("raise_last_exception")
@@ -98,9 +100,9 @@ def jobs(tier):
     N = 3 if q else 4
     out = []
     for entry in ENTRIES:
-        for o1 in range(4):
+        for o1 in range(4):  # (exc_same needs a preceding exc, so it is never pinned as the first outcome)
             out.append(dict(name=f"run:{entry}:o1={o1}", harness="rv.props.c04:h_run",
-                            params=dict(entry=entry, N=N, kinds=["ok", "exc", "res", "resnone"],
+                            params=dict(entry=entry, N=N, kinds=["ok", "exc", "res", "resnone", "exc_same"],
                                         classes=["TRANSIENT", "PERMANENT"] + ([] if q else ["UNKNOWN"]),
                                         limits=["TRANSIENT"], cap=None if q else "sym", handler=True, budget="sym",
                                         pin={"o1": o1}),
